@@ -98,6 +98,10 @@ func ctrTerm(key, iv, plain []byte) []byte {
 	return out
 }
 
+// defined types over string and []byte (admitted by the constraint ~string | ~[]byte)
+type nStr string
+type nBytes []byte
+
 // evp: D1 = md5(secret.salt), D_{j+1} = md5(D_j.secret.salt); key = D1.D2, iv = D3
 func evp(secret, salt []byte) (key, iv []byte) {
 	var d []byte
@@ -595,6 +599,14 @@ func runC09(c *core.Case, st *core.CaseStats, rep func(fn, kind string, in, exp,
 		}()
 		if guard("Encrypt", in, func() {
 			switch form {
+			case "sS":
+				enc, err = cryptz.Encrypt(string(plain), nStr(secret))
+			case "bB":
+				enc, err = cryptz.Encrypt(plain, nBytes(secret))
+			case "SB":
+				enc, err = cryptz.Encrypt(nStr(plain), nBytes(secret))
+			case "Bs":
+				enc, err = cryptz.Encrypt(nBytes(plain), string(secret))
 			case "ss":
 				enc, err = cryptz.Encrypt(string(plain), string(secret))
 			case "sb":
@@ -639,7 +651,16 @@ func runC09(c *core.Case, st *core.CaseStats, rep func(fn, kind string, in, exp,
 		} else if err != nil {
 			rep("Encrypt", "value", in, "no error", err.Error())
 		}
-		if guard("GCMEncrypt", in, func() { enc, err = cryptz.GCMEncrypt(plain, secret, aad) }) && err == nil {
+		if guard("GCMEncrypt", in, func() {
+			switch form[1] {
+			case 'S':
+				enc, err = cryptz.GCMEncrypt(nBytes(plain), nStr(secret), nStr(aad))
+			case 'B':
+				enc, err = cryptz.GCMEncrypt(nStr(plain), nBytes(secret), nBytes(aad))
+			default:
+				enc, err = cryptz.GCMEncrypt(plain, secret, aad)
+			}
+		}) && err == nil {
 			core.RetainBytes(st, c, "GCMEncrypt", in, enc)
 			raw, e2 := hex.DecodeString(string(enc))
 			if e2 != nil || len(raw) != o.Gcm || string(raw[:8]) != "Salted__" {
